@@ -219,3 +219,97 @@ Proof.
     + destruct (Hro k2 k1) as [_ Hr]; [lia|].
       destruct Hreq as [Hreq|[_ Hreq]]; [|lia]. apply Hr. exact Hreq.
 Qed.
+
+(* ---------------------------------------------------------------------------------------------- *)
+(* distinct finite positions are preserved *)
+
+Require Import Grist.Proofs.Sort_by_proofs.
+
+Lemma trichotomy_nonnan a b : is_nan a = false -> is_nan b = false ->
+  flt a b = true \/ feq a b = true \/ flt b a = true.
+Proof.
+  intros Ha Hb. destruct (Z.lt_trichotomy (ford a) (ford b)) as [H|[H|H]].
+  - left. apply flt_iff. auto.
+  - right; left. apply feq_iff. auto.
+  - right; right. apply flt_iff. auto.
+Qed.
+
+Theorem apply_preserves_distinct orig keys adj ins :
+  Forall (fun x => is_nan x = false) keys -> strictly_sorted orig -> Spec orig keys adj ins ->
+  strictly_sorted (positions_after orig adj ins).
+Proof.
+  intros Hnn Hs HS. unfold strictly_sorted, positions_after.
+  apply (sort_by_sorted flt flt_trans).
+  pose proof (apply_adj_length adj orig) as Hlen.
+  apply FOP_app.
+  - apply (FOP_of_nth _ FNaN). intros i j Hij. left.
+    destruct (sp_order _ _ _ _ HS i j) as [_ H]; [lia|]. apply H.
+    apply (StronglySorted_nth _ FNaN _ Hs). lia.
+  - apply (FOP_of_nth _ FNaN). intros k1 k2 Hk. rewrite (sp_len _ _ _ _ HS) in Hk.
+    rewrite Forall_forall in Hnn.
+    assert (N1 : is_nan (nth k1 keys FNaN) = false) by (apply Hnn, nth_In; lia).
+    assert (N2 : is_nan (nth k2 keys FNaN) = false) by (apply Hnn, nth_In; lia).
+    destruct (trichotomy_nonnan _ _ N1 N2) as [H|[H|H]].
+    + left. apply (sp_req_order _ _ _ _ HS); [lia | lia | left; exact H].
+    + left. apply (sp_req_order _ _ _ _ HS); [lia | lia | right; split; [exact H | lia]].
+    + right. apply (sp_req_order _ _ _ _ HS); [lia | lia | left; exact H].
+  - intros x y Hx Hy.
+    destruct (In_nth _ _ FNaN Hx) as (i & Hi & <-). destruct (In_nth _ _ FNaN Hy) as (k & Hk & <-).
+    rewrite (sp_len _ _ _ _ HS) in Hk. rewrite Hlen in Hi.
+    pose proof (sp_place _ _ _ _ HS k i Hk Hi) as Hp.
+    destruct (flt (nth i orig FNaN) (nth k keys FNaN)); [left | right]; exact Hp.
+Qed.
+
+Theorem apply_preserves_finite orig keys adj ins :
+  all_finite orig -> Spec orig keys adj ins -> all_finite (positions_after orig adj ins).
+Proof.
+  intros Hf HS. unfold all_finite, positions_after in *. rewrite Forall_forall in *.
+  intros x Hx. apply sort_by_In in Hx. apply in_app_or in Hx. destruct Hx as [Hx|Hx].
+  - apply apply_adj_In in Hx. destruct Hx as [Hx|Hx]; [apply Hf; exact Hx|].
+    apply in_map_iff in Hx. destruct Hx as (p & <- & Hp).
+    destruct (In_nth _ _ (0, FNaN) Hp) as (a & Ha & <-).
+    destruct (sp_adj_wf _ _ _ _ HS a Ha) as (_ & H & _). exact H.
+  - pose proof (sp_finite _ _ _ _ HS) as H. rewrite Forall_forall in H. apply H. exact Hx.
+Qed.
+
+Lemma remove_nth_sorted i : forall l, strictly_sorted l -> strictly_sorted (remove_nth i l).
+Proof.
+  unfold strictly_sorted. induction i as [|i IH]; intros l H; destruct l as [|x t]; cbn; try assumption.
+  - inversion H; assumption.
+  - inversion H as [|? ? Ht Hx]; subst. constructor; [apply IH; assumption|].
+    rewrite Forall_forall in *. intros y Hy. apply Hx.
+    clear - Hy. revert i Hy. induction t as [|z t IHt]; intros [|i] Hy; cbn in *; try tauto.
+    destruct Hy as [Hy|Hy]; [auto | right; eapply IHt; eassumption].
+Qed.
+
+Lemma remove_nth_finite i : forall l, all_finite l -> all_finite (remove_nth i l).
+Proof.
+  unfold all_finite. induction i as [|i IH]; intros l H; destruct l as [|x t]; cbn; try assumption.
+  - inversion H; assumption.
+  - inversion H; subst. constructor; [assumption | apply IH; assumption].
+Qed.
+
+(* after any history: positions are distinct (strictly increasing in row order) and finite *)
+Theorem history_invariant s : reachable s -> strictly_sorted s /\ all_finite s.
+Proof.
+  induction 1 as [|s s' Hr [IH1 IH2] Hstep].
+  - split; constructor.
+  - destruct Hstep as [s keys adj ins Hnn HS | s i].
+    + split; [eapply apply_preserves_distinct; eassumption | eapply apply_preserves_finite; eassumption].
+    + split; [apply remove_nth_sorted | apply remove_nth_finite]; assumption.
+Qed.
+
+Lemma model_add_step s keys s' : model_add s keys = Some s' -> step s s'.
+Proof.
+  unfold model_add. destruct (prepare_inserts_model s keys) as [[adj ins]|c]; [|discriminate].
+  destruct (check s keys adj ins) eqn:E; [|discriminate]. intros H. inversion H; subst.
+  destruct (checker_sound _ _ _ _ E) as [(_ & _ & Hk) HS]. apply (step_add s keys); assumption.
+Qed.
+
+Theorem model_run_invariant batches : forall s s', reachable s -> model_run s batches = Some s' -> reachable s'.
+Proof.
+  induction batches as [|keys rest IH]; intros s s' Hr H; cbn in H.
+  - inversion H; subst; assumption.
+  - destruct (model_add s keys) as [s1|] eqn:E; [|discriminate].
+    eapply IH; [|exact H]. econstructor; [exact Hr | apply (model_add_step s keys); exact E].
+Qed.
